@@ -34,10 +34,12 @@ import (
 	"os"
 	"strings"
 	"sync"
+	"sync/atomic"
 	"testing"
 	"time"
 
 	"github.com/gopcua/opcua/ua"
+	"github.com/gopcua/opcua/uasc"
 	"pgregory.net/rapid"
 
 	"verif/pkg/chanpair"
@@ -48,7 +50,7 @@ import (
 
 func TestMain(m *testing.M) { ev.Main(m) }
 
-var rec = ev.For("C10", "gopcua client<->server channel pair per case (5 secured policies x Sign/SignAndEncrypt x receiving kind server/client), history of 2-12 tagged messages (single/multi chunk, 0-2 token renewals in between), adversary script of 1-4 operations executed in a MITM tap (re-send one earlier chunk / a whole earlier message after a later message or right after a token renewal, duplicate a chunk immediately, swap two adjacent messages, swap two adjacent chunks); in a third of the cases the sender's numbering jumps forward 1-3 times between messages (to about 2^16, 2^24, 2^31-40, 2^31+2000, 3e9, 2^32-70000: long-lived channel / gaps), so that a replayed chunk can lie more than 2^31 behind; non-trivial = at least one replayed or re-ordered chunk was forwarded to the receiver after chunks it had accepted; distinct by hash of the case")
+var rec = ev.For("C10", "gopcua client<->server channel pair per case (5 secured policies x Sign/SignAndEncrypt x receiving kind server/client), history of 2-12 tagged messages (single/multi chunk, 0-2 token renewals in between), adversary script of 1-4 operations executed in a MITM tap (re-send one earlier chunk / a whole earlier message after a later message or right after a token renewal, duplicate a chunk immediately, swap two adjacent messages, swap two adjacent chunks); in a third of the cases the sender's numbering jumps forward 1-3 times (steps of 2^16 ... 2^31-70000, each shorter than 2^31: long-lived channel / gaps), so that a replayed chunk can lie more than 2^31 behind; in a sixth of the cases the sender climbs to its wrap-around point (1.4e9, 2.8e9, 4294966271-k) and wraps, so that chunks from before the wrap can be replayed after it; non-trivial = at least one replayed or re-ordered chunk was forwarded to the receiver after chunks it had accepted; distinct by hash of the case")
 
 // ---------------------------------------------------------------------------
 // case
@@ -85,9 +87,10 @@ type Case struct {
 type Jump struct {
 	After int    `json:"after"`
 	To    uint32 `json:"to"`
+	First bool   `json:"before_first_message,omitempty"` // the jump happens before message 0 (After is ignored)
 }
 
-var jumpMenu = []uint32{1 << 16, 1 << 24, 1<<31 - 40, 1<<31 + 2000, 3000000000, 1<<32 - 70000}
+var jumpDeltas = []uint32{1 << 16, 1 << 24, 1 << 30, 1<<31 - 70000, 1<<31 - 70000}
 
 type outcome struct {
 	Infra      string
@@ -287,6 +290,32 @@ type delivery struct {
 
 func closePair(p *chanpair.Pair) { mitm.HardClose(p) }
 
+// jumpBoth moves both ends of one direction of the channel to the number `to`,
+// as if the channel had been in use for that long: the sender continues its
+// numbering from `to`, the receiver has accepted everything up to `to`. It only
+// does so at a quiescent point (the receiver has consumed every chunk the
+// sender has numbered so far); otherwise the jump is skipped, which is always
+// sound - a jump is an acceleration of the harness, not part of the history.
+func jumpBoth(sender, receiver *uasc.SecureChannel, to uint32) bool {
+	deadline := time.Now().Add(400 * time.Millisecond)
+	for {
+		sent, _, ok1 := sender.VerifSequenceNumbers()
+		_, recvd, ok2 := receiver.VerifSequenceNumbers()
+		if ok1 && ok2 && sent == recvd {
+			break
+		}
+		if time.Now().After(deadline) {
+			return false
+		}
+		time.Sleep(2 * time.Millisecond)
+	}
+	if !sender.VerifSetSequenceNumber(to) {
+		return false
+	}
+	receiver.VerifSetReceivedSequenceNumber(to)
+	return true
+}
+
 func run(c Case) (o outcome) {
 	if c.Kind != "server" && c.Kind != "client" {
 		return outcome{Infra: "unknown kind"}
@@ -308,15 +337,46 @@ func run(c Case) (o outcome) {
 			renewAfter[mod(r, n-1)] = true
 		}
 	}
+	// Jumps ascend and none goes beyond the last number gopcua uses before it
+	// wraps. Both ends are moved (jumpBoth): a receiver may treat a number that
+	// is far ahead of the last one as a stale chunk from before a wrap-around.
 	jumpAfter := map[int]uint32{}
+	jumpFirst := uint32(0)
+	wrapJumpAfter := -1 // message after which the sender is put right before its wrap-around
 	{
 		last := uint32(0)
 		for _, j := range c.Jumps {
-			if j.To > last+4096 && j.To < 1<<32-66000 { // ascending, and far from the wrap-around window
-				jumpAfter[mod(j.After, n)] = j.To
+			if j.To > last+4096 && j.To <= 4294966271 {
+				if j.First && last == 0 {
+					jumpFirst = j.To
+				} else if !j.First {
+					jumpAfter[mod(j.After, n)] = j.To
+					if j.To >= 4294966271-1024 {
+						wrapJumpAfter = mod(j.After, n)
+					}
+				} else {
+					continue
+				}
 				last = j.To
 			}
 		}
+	}
+	var jumpsDone, jumpsSkipped atomic.Int32
+	if wrapJumpAfter >= 0 {
+		// In a history that wraps around only copies of earlier chunks are
+		// inserted. A swap across the wrap makes the receiver see the number 1
+		// too early; it rejects THAT chunk (and then rightly accepts the
+		// swapped-back one), which the order-based oracle cannot express.
+		var ops []Op
+		for _, op := range c.Ops {
+			if op.Kind != "swap-msg" && op.Kind != "swap-chunk" {
+				ops = append(ops, op)
+			}
+		}
+		if len(ops) == 0 {
+			ops = []Op{{Kind: "replay-msg", Src: 0, At: n - 1}}
+		}
+		c.Ops = ops
 	}
 	sc := newScript(c)
 	ck, sk := mitm.Keys(pol)
@@ -385,12 +445,21 @@ func run(c Case) (o outcome) {
 			}
 		}()
 		sc.enable()
+		if jumpFirst != 0 && jumpBoth(p.Client, p.Server, jumpFirst) {
+			jumpsDone.Add(1)
+		}
 		for i := 0; i < n; i++ {
 			if err := p.Client.SendRequest(ctx, mitm.Request(i, padOf(i)), nil, nil); err != nil {
 				break // the receiver already stopped
 			}
 			if to, ok := jumpAfter[i]; ok {
-				p.Client.VerifSetSequenceNumber(to)
+				// after one skipped jump (the receiver has stopped, or chunks are
+				// held back by the adversary) the later ones are skipped as well
+				if jumpsSkipped.Load() == 0 && jumpBoth(p.Client, p.Server, to) {
+					jumpsDone.Add(1)
+				} else {
+					jumpsSkipped.Add(1)
+				}
 			}
 			if renewAfter[i] {
 				if err := p.Client.Renew(ctx); err != nil {
@@ -409,6 +478,9 @@ func run(c Case) (o outcome) {
 		}
 	} else {
 		served := make(chan int, total+4)
+		if jumpFirst != 0 && jumpBoth(p.Server, p.Client, jumpFirst) {
+			jumpsDone.Add(1)
+		}
 		go func() { // the application behind the server channel: answers every request
 			for {
 				r := mitm.Receive(p.Server, 3*stepTimeout)
@@ -431,7 +503,11 @@ func run(c Case) (o outcome) {
 					return
 				}
 				if to, ok := jumpAfter[tag]; ok {
-					p.Server.VerifSetSequenceNumber(to)
+					if jumpsSkipped.Load() == 0 && jumpBoth(p.Server, p.Client, to) {
+						jumpsDone.Add(1)
+					} else {
+						jumpsSkipped.Add(1)
+					}
 				}
 				served <- tag
 			}
@@ -512,7 +588,7 @@ func run(c Case) (o outcome) {
 
 	// harness assumption: the sender numbers its chunks in the order it writes them
 	for i := 1; i < len(seqs); i++ {
-		if seqs[i] <= seqs[i-1] {
+		if seqs[i] <= seqs[i-1] && !(seqs[i-1] >= 4294966271-1024 && seqs[i] < 1024) { // except the legitimate wrap-around
 			return outcome{Infra: fmt.Sprintf("sender's own sequence numbers are not increasing (%d after %d): the oracle's premise does not hold (C11's business)", seqs[i], seqs[i-1])}
 		}
 	}
@@ -591,7 +667,25 @@ func run(c Case) (o outcome) {
 	if crossRenewal {
 		o.Classes = append(o.Classes, "replay-crosses-renewal")
 	}
-	o.Classes = append(o.Classes, fmt.Sprintf("jumps=%d", len(jumpAfter)))
+	nj := len(jumpAfter)
+	if jumpFirst != 0 {
+		nj++
+	}
+	o.Classes = append(o.Classes, fmt.Sprintf("jumps-drawn=%d", nj), fmt.Sprintf("jumps-done=%d", jumpsDone.Load()))
+	if jumpsSkipped.Load() > 0 {
+		o.Classes = append(o.Classes, "jump-skipped(receiver-not-quiescent)")
+	}
+	if wrapJumpAfter >= 0 && int(jumpsDone.Load()) == nj {
+		o.Classes = append(o.Classes, "sender-wraps-around")
+		if firstBad >= 0 && log[firstBad].Msg >= 0 && log[firstBad].Msg <= wrapJumpAfter {
+			for i := 0; i < firstBad; i++ {
+				if log[i].Msg > wrapJumpAfter {
+					o.Classes = append(o.Classes, "replay-of-a-pre-wrap-chunk-after-the-wrap-around")
+					break
+				}
+			}
+		}
+	}
 	if firstBad >= 0 && log[firstBad].Msg >= 0 {
 		// the numbering moved on by more than 2^31 between the original and its copy
 		far := false
@@ -736,15 +830,29 @@ func genCase(t *rapid.T, kind string) Case {
 		op.At = rapid.IntRange(0, n-1).Draw(t, "at")
 		c.Ops = append(c.Ops, op)
 	}
-	if rapid.IntRange(0, 2).Draw(t, "jumps") == 0 {
+	switch jk := rapid.IntRange(0, 5).Draw(t, "jumps"); {
+	case jk < 2:
+		// 1-3 forward jumps, each shorter than 2^31
 		nj := rapid.IntRange(1, 3).Draw(t, "njumps")
-		after := rapid.IntRange(0, n-1).Draw(t, "jumpAfter")
-		mi := rapid.IntRange(0, len(jumpMenu)-1).Draw(t, "jumpTo")
-		for i := 0; i < nj && after < n && mi < len(jumpMenu); i++ {
-			c.Jumps = append(c.Jumps, Jump{After: after, To: jumpMenu[mi] + uint32(rapid.IntRange(0, 3000).Draw(t, "jumpOff"))})
+		after := rapid.IntRange(-1, n-1).Draw(t, "jumpAfter")
+		to := uint32(0)
+		for i := 0; i < nj && after < n; i++ {
+			to += rapid.SampledFrom(jumpDeltas).Draw(t, "jumpDelta") + uint32(rapid.IntRange(0, 3000).Draw(t, "jumpOff"))
+			if to > 4294966271-70000 || to < 70000 {
+				break
+			}
+			c.Jumps = append(c.Jumps, Jump{After: after, To: to, First: after < 0})
 			after += rapid.IntRange(1, 4).Draw(t, "jumpGap")
-			mi += rapid.IntRange(1, 3).Draw(t, "jumpStep")
 		}
+	case jk == 2 && n >= 3:
+		// the sender climbs to its wrap-around point and wraps: every scripted
+		// chunk before the wrap has a number above 10^9, later ones restart at 1
+		a := rapid.IntRange(0, n-3).Draw(t, "wrapA")
+		b := rapid.IntRange(a+1, n-2).Draw(t, "wrapB")
+		c.Jumps = append(c.Jumps,
+			Jump{First: true, To: 1400000000 + uint32(rapid.IntRange(0, 3000).Draw(t, "jumpOff"))},
+			Jump{After: a, To: 2800000000 + uint32(rapid.IntRange(0, 3000).Draw(t, "jumpOff"))},
+			Jump{After: b, To: 4294966271 - uint32(rapid.IntRange(0, 40).Draw(t, "wrapBack"))})
 	}
 	return c
 }
